@@ -21,6 +21,7 @@ func init() {
 		Assumptions: []string{"sort.SliceStable is stable", "constants cannot depend on variables or functions (Go's constant-expression rule), which is why hoisting `const` above initialisers is unobservable"},
 		Quick: []ruleDef{
 			{"TAB-PRIORITY", 17, ruleTabPriority},
+			{"ALIAS-EXPAND", 1, ruleAliasExpand},
 			{"LOAD-TYPEDEPS", 2, ruleLoadTypeDeps},
 			{"JOIN", 2, ruleJoinFiles},
 			{"JOIN-IMPORTS", 2, ruleJoinImports},
